@@ -479,6 +479,8 @@ func runC01(w *World, r *Report) {
 	}
 
 	shareRule(w, r, "C01.fan-in-keeps-errors", "a stream handed to a fan-in forwards the error item of its source: a predecessor whose stream fails in the middle must not reach the successor as a clean, shorter stream (the node would run on a truncated merge and the run report success)", 1, "C04", "C04.stream-errors-forwarded")
+	shareRule(w, r, "C01.checkpointer-per-compile", "every Compile builds the runner it returns (tables, checkpointer, options): nothing a previous Compile of the same graph object produced is handed out again, so the step limit and the other options of THIS Compile are the ones in force", 1, "C06", "C06.checkpointer-always-built")
+	shareRule(w, r, "C01.fan-in-merge-owns-its-array", "merging array-backed readers at a fan-in starts from a slice of its own: a fan-out hands every successor the same backing array, and two fan-in merges appending into its spare capacity overwrite each other's partner chunk (Stream only)", 1, "C08", "C08.array-alias")
 	r.Rule("C01.end-short-circuit", "END's value is returned before tasks are created and before the next submit", 4)
 	calc := w.Fn("compose", "runner.calculateNextTasks")
 	create := w.Fn("compose", "runner.createTasks")
